@@ -246,7 +246,13 @@ def gen_scalar(rng):
     return gen_str(rng)
 
 
-def gen_value(rng, depth=0, max_depth=4):
+def gen_value(rng, depth=0, max_depth=4, large=False):
+    if large and depth == 0 and rng.random() < 0.01:
+        # large collections: no size limit applies to values flowing through expressions
+        n = rng.choice([1001, 1500])
+        if rng.random() < 0.5:
+            return list(range(n))
+        return dict(("k%d" % i, i) for i in range(n))
     if depth >= max_depth or rng.random() < (0.25 + 0.2 * depth):
         return gen_scalar(rng)
     n = rng.choice([0, 1, 1, 2, 3, 4])
@@ -880,7 +886,7 @@ def _work(job):
     res = {"kind": kind, "seed": seed, "problems": [], "n": 0, "calls": 0, "tags": [], "key": None}
     try:
         if kind == "eval":
-            v = gen_value(rng)
+            v = gen_value(rng, large=True)
             res["problems"], res["n"] = check_eval(v)
             res["tags"] = sorted(tags_of(v))
             res["key"] = hashlib.sha1(("eval" + enc(v)).encode("latin-1")).hexdigest()[:16]
